@@ -17,7 +17,7 @@ import itertools, math, re, sys
 from tools import vlib, regex_ast
 
 PROP = "C18"
-GEN = ["gen_regex"]
+GEN = ["gen_regex", "gen_helpers"]
 RULE = ("(a) all strings <= n over per-pattern alphabets: model matcher == re.fullmatch == expression.re.fullmatch; "
         "reference grammars == float()/int() acceptance, py_int == int() value; (b) all strings <= n over "
         "'+-.eE09 xnaif_': parse+convert vs int()/float() both directions, number typing; (c) generated well-formed + "
@@ -249,7 +249,7 @@ def part_b(ctx, info):
         for s in strs:
             bad = numeric_oracle(name, expr, s, info)
             if bad:
-                ctx.violation(bad[0], bad[1], {"kind": "numeric", "expr": name, "s": s})
+                viol(ctx, bad[0], bad[1], {"kind": "numeric", "expr": name, "s": s})
             ctx.case(("num", name, s), nontrivial=False, agreed=True)
     ctx.stat("numeric_strings", len(strs) * len(names))
     # model of `number` (MatchFirst over the generated alternatives) against the implementation
@@ -275,8 +275,8 @@ def part_b(ctx, info):
                 got = pp_parse(ppc.fraction, s)
                 if int(b) == 0:
                     if got[0] == "exc":
-                        ctx.violation("fraction:zero-denominator", "fraction raises %s (not a ParseException) on %r" % (got[1], s),
-                                      {"kind": "fraction", "s": s})
+                        viol(ctx, "fraction:zero-denominator", "fraction raises %s (not a ParseException) on %r" % (got[1], s),
+                             {"kind": "fraction", "s": s})
                     ctx.case(("frac", s), False, True)
                     continue
                 want = float(int(a)) / float(int(b))
@@ -308,16 +308,509 @@ def correspond(ctx):
     ctx.coverage_extra["partial"] = EXPLANATION
 
 
+# ------------------------------------------------------------------------------------------------ (c) addresses, uuid, dates
+def viol(ctx, key, what, replay):
+    """first occurrence per key only (the smallest inputs are enumerated first)"""
+    seen = ctx.__dict__.setdefault("_c18_seen", set())
+    if key in seen:
+        return
+    seen.add(key)
+    ctx.violation(key, what, replay)
+
+
+def accepts(expr, s):
+    got = pp_parse(expr, s)
+    return got[0] == "ok", got
+
+
+def py_ok(f, s):
+    try:
+        return True, f(s)
+    except ValueError:
+        return False, None
+
+
+WS = " \t\n\r"
+
+
+def family_oracle(fam, s):
+    """None or (key, description): agreement of one address/uuid/date expression with its stdlib reference on s"""
+    import ipaddress, uuid as uuidmod, datetime
+    from pyparsing import pyparsing_common as ppc
+    t = s.strip(WS)
+    if fam == "ipv4":
+        a, got = accepts(ppc.ipv4_address, s)
+        r, v = py_ok(ipaddress.IPv4Address, t)
+        if a and not r:
+            k = "ipv4:leading-zero-octet" if any(re.fullmatch(r"0\d", o) for o in t.split(".")) else "ipv4:accepts:%r" % s
+            return (k, "ipv4_address accepts %r, ipaddress.IPv4Address rejects it" % s)
+        if r and not a:
+            return ("ipv4:rejects:%r" % s, "ipv4_address rejects %r, ipaddress.IPv4Address accepts it" % s)
+        if a and str(v) != got[1][0]:
+            return ("ipv4:value:%r" % s, "ipv4_address returns %r for %r" % (got[1][0], s))
+    elif fam == "ipv6":
+        a, got = accepts(ppc.ipv6_address, s)
+        if got[0] == "exc":
+            return ("ipv6:raises:%r" % s, "ipv6_address raises %s on %r" % (got[1], s))
+        r, v = py_ok(ipaddress.IPv6Address, t)
+        if a and not r:
+            tail = t.rsplit(":", 1)[-1]
+            k = "ipv6:embedded-ipv4-leading-zero" if ("." in tail and any(re.fullmatch(r"0\d", o) for o in tail.split("."))) \
+                else "ipv6:accepts:%r" % s
+            return (k, "ipv6_address accepts %r, ipaddress.IPv6Address rejects it" % s)
+        if r and not a:
+            if "%" in t:
+                k = "ipv6:zone-id"
+            elif "." in t:
+                k = "ipv6:embedded-ipv4-prefix"
+            else:
+                k = "ipv6:rejects:%r" % s
+            return (k, "ipv6_address rejects %r, ipaddress.IPv6Address accepts it" % s)
+        if a and r and ipaddress.IPv6Address(got[1][0]) != v:
+            return ("ipv6:value:%r" % s, "ipv6_address returns %r for %r" % (got[1][0], s))
+    elif fam == "mac":
+        a, got = accepts(ppc.mac_address, s)
+        sep = t[2] if len(t) == 17 else None
+        r = sep in (":", ".", "-") and len(t.split(sep)) == 6 and all(re.fullmatch(r"[0-9a-fA-F]{2}", x) for x in t.split(sep))
+        if a != bool(r):
+            return ("mac:%s:%r" % ("accepts" if a else "rejects", s), "mac_address %s %r" % ("accepts" if a else "rejects", s))
+    elif fam == "uuid":
+        a, got = accepts(ppc.uuid, s)
+        r, v = py_ok(uuidmod.UUID, t)
+        canon = r and len(t) == 36 and str(v) == t.lower()
+        if a and not canon:
+            return ("uuid:accepts:%r" % s, "uuid accepts %r which uuid.UUID does not read as the canonical form" % s)
+        if canon and not a:
+            return ("uuid:rejects:%r" % s, "uuid rejects the canonical UUID text %r" % s)
+    elif fam == "date":
+        d = ppc.iso8601_date.copy().set_parse_action(ppc.convert_to_date())
+        a, got = accepts(d, s)
+        if got[0] == "exc":
+            return ("date:raises:%r" % s, "iso8601_date + convert_to_date raises %s on %r" % (got[1], s))
+        shaped = re.fullmatch(r"\d{4}-\d\d-\d\d", t) is not None
+        r, v = py_ok(datetime.date.fromisoformat, t) if shaped else (False, None)
+        if a != r:
+            return ("date:%s:%r" % ("accepts" if a else "rejects", s),
+                    "iso8601_date+convert_to_date %s %r, datetime.date.fromisoformat %s" % (
+                        "accepts" if a else "rejects", s, "accepts" if r else "rejects"))
+        if a and got[1][0] != v:
+            return ("date:value:%r" % s, "iso8601_date returns %r for %r" % (got[1][0], s))
+        a2, _ = accepts(ppc.iso8601_date, s)        # the bare pattern: exactly the shapes yyyy, yyyy-mm, yyyy-mm-dd
+        if a2 != (re.fullmatch(r"\d{4}(-\d\d(-\d\d)?)?", t) is not None):
+            return ("date:shape:%r" % s, "iso8601_date pattern %s %r" % ("accepts" if a2 else "rejects", s))
+    elif fam == "datetime":
+        a, got = accepts(ppc.iso8601_datetime, s)
+        doc = re.fullmatch(r"(\d{4})-(\d\d)-(\d\d)[T ](\d\d):(\d\d)(?::(\d\d)(\.\d*)?)?(Z|[+-]\d\d:?\d\d)?", t)
+        if a and not doc:
+            k = "datetime:empty-seconds" if re.fullmatch(r"\d{4}-\d\d-\d\d[T ]\d\d:\d\d:(Z|[+-]\d\d:?\d\d)?", t) else "datetime:accepts:%r" % s
+            return (k, "iso8601_datetime accepts %r, outside yyyy-mm-ddThh:mm[:ss[.s]][tz]" % s)
+        if doc and not a:
+            return ("datetime:rejects:%r" % s, "iso8601_datetime rejects %r" % s)
+        if doc and doc.group(7) != ".":
+            r, v = py_ok(datetime.datetime.fromisoformat, t)     # in range and non-degenerate: components must agree
+            if r:
+                res = ppc.iso8601_datetime.parse_string(s, parse_all=True)
+                comp = (int(res["year"]), int(res["month"]), int(res["day"]), int(res["hour"]), int(res["minute"]))
+                if comp != (v.year, v.month, v.day, v.hour, v.minute):
+                    return ("datetime:value:%r" % s, "iso8601_datetime groups %r for %r" % (comp, s))
+                sec = res.get("second")
+                if (int(sec[:2]) if sec else 0) != v.second:
+                    return ("datetime:value:%r" % s, "iso8601_datetime second %r for %r" % (sec, s))
+    return None
+
+
+def family_cases(ctx):
+    import datetime
+    rng = ctx.rng
+    big = ctx.thorough
+    out = []
+    pool = ["0", "1", "9", "00", "01", "10", "99", "000", "001", "099", "100", "199", "200", "249", "250", "255", "256", "260", "300",
+            "1000", "", "-1"]
+    octs = list(itertools.product(pool, repeat=4))
+    rng.shuffle(octs)
+    for t in [("0", "0", "0", "00"), ("1", "2", "3", "4"), ("255", "255", "255", "255"), ("01", "2", "3", "4")] + octs[:(20000 if big else 2500)]:
+        out.append(("ipv4", ".".join(t)))
+    out += [("ipv4", x) for x in ["1.2.3", "1.2.3.4.5", "1.2.3.4.", ".1.2.3.4", "1..2.3", "1.2.3.4/8", " 1.2.3.4", "1.2.3.4 ", "1.2.3.a"]]
+    out += [("ipv6", x) for x in ["::", "::1", "1::", "::ffff:1.2.3.4", "::FFFF:1.2.3.4", "::1.2.3.4", "1:2:3:4:5:6:1.2.3.4", "1::1.2.3.4",
+                                  "fe80::1%eth0", "::ffff:01.2.3.4", "1:2:3:4:5:6:7::", "::1:2:3:4:5:6:7", "1:2:3:4:5:6:7:8::", "1:2:3:4::5:6:7:8",
+                                  ":::", "1:::2", "::ffff:1.2.3.4:1", "0:0:0:0:0:ffff:1.2.3.4", "::ffff:256.1.1.1", "1::2::3", "1:2:3:4:5:6:7:8",
+                                  "1:2:3:4:5:6:7", "1:2:3:4:5:6:7:8:9", "::ffff:1.2.3", "1:2:3:4:5:6:7:g"]]
+    hexs = ["0", "1", "ab", "ABCD", "ffff", "00000", "12345", "g", "", "0001"]
+    for _ in range(6000 if big else 1500):
+        n = rng.randint(0, 9)
+        gs = [rng.choice(hexs[:5] if rng.random() < 0.8 else hexs) for _ in range(n)]
+        dc = rng.randint(-1, n)
+        out.append(("ipv6", ":".join(gs) if dc < 0 else ":".join(gs[:dc]) + "::" + ":".join(gs[dc:])))
+    hx = "0123456789abcdefABCDEF"
+    for _ in range(1500 if big else 400):
+        sep = rng.choice(":.-")
+        s = sep.join("".join(rng.choice(hx) for _ in range(2)) for _ in range(6))
+        out.append(("mac", s))
+        k = rng.randrange(len(s))
+        out.append(("mac", s[:k] + rng.choice(":.-gG0 ") + s[k + 1:]))
+        out.append(("mac", s[:k] + s[k + 1:]))
+        u = "-".join("".join(rng.choice(hx) for _ in range(n)) for n in (8, 4, 4, 4, 12))
+        out.append(("uuid", u))
+        k = rng.randrange(len(u))
+        out.append(("uuid", u[:k] + rng.choice("-gG0 {") + u[k + 1:]))
+        out.append(("uuid", u[:k] + u[k + 1:]))
+        out.append(("uuid", u + rng.choice("0a-")))
+    out += [("uuid", x) for x in EXTRA["uuid"] + ["{12345678-1234-5678-1234-567812345678}", "urn:uuid:12345678-1234-5678-1234-567812345678"]]
+    for y in ["1999", "2000", "0001", "9999", "0000", "199", "19999", "2024", "1900"]:
+        for m in ["01", "02", "12", "00", "13", "1", ""]:
+            for d in ["01", "28", "29", "30", "31", "00", "32", "1", ""]:
+                out.append(("date", "-".join(x for x in (y, m, d) if x)))
+                out.append(("date", y + "-" + m + "-" + d))
+    out += [("date", x) for x in EXTRA["iso8601_date"] + ["19991231", "1999-W01-1", "1999-12-31T00", "2000-02-29", "1900-02-29"]]
+    for _ in range(1500 if big else 400):
+        dt = datetime.datetime(rng.randint(1, 9999), rng.randint(1, 12), rng.randint(1, 28), rng.randint(0, 23), rng.randint(0, 59),
+                               rng.randint(0, 59), rng.choice([0, 0, 500000, 123456]))
+        s = dt.isoformat(sep=rng.choice("T ")) + rng.choice(["", "", "Z", "+01:00", "-0530", "+00:00"])
+        out.append(("datetime", s))
+        out.append(("datetime", s[:16]))
+        k = rng.randrange(len(s))
+        out.append(("datetime", s[:k] + rng.choice("0:-T .Z+a") + s[k + 1:]))
+        out.append(("datetime", s[:k] + s[k + 1:]))
+    out += [("datetime", x) for x in EXTRA["iso8601_datetime"] + ["1999-12-31T24:00:00", "1999-13-01T00:00", "1999-12-31T23:59:60"]]
+    return out
+
+
 def part_c(ctx, info):
-    pass
+    for fam, s in family_cases(ctx):
+        bad = family_oracle(fam, s)
+        if bad:
+            viol(ctx, bad[0], bad[1], {"kind": "family", "family": fam, "s": s})
+        ctx.case((fam, s), nontrivial=False, agreed=True)
+        ctx.stat("family_" + fam)
+
+
+# ------------------------------------------------------------------------------------------------ (d) QuotedString
+QPRE = ("From Coq Require Import List ZArith NArith Bool.\n"
+        "From PP Require Import Model.Str Model.Regex Model.Enum Model.Builtins Model.Quoted Gen.GenRegex.\nImport ListNotations.\n")
+SPECIAL_AFTER_BS = set("01234567tnfrxu")
+BSL = chr(92)
+SQ3 = chr(39) * 3
+
+
+def cfg_coq(q, eq, esc, escq, ml, unq, cws):
+    return "{| q_quote := %s; q_end := %s; q_esc := %s; q_escq := %s; q_multiline := %s; q_unquote := %s; q_cws := %s |}" % (
+        vlib.coq_str(q), vlib.coq_str(eq), "None" if esc is None else "Some %d%%N" % ord(esc),
+        "None" if escq is None else "Some %s" % vlib.coq_str(escq), str(ml).lower(), str(unq).lower(), str(cws).lower())
+
+
+def py_escape(eq, esc, escq, cws, c):
+    """how a user quotes content (Model/Quoted.v escape_content)"""
+    if esc:
+        return "".join((esc + ch) if (ch == esc or ch == eq[0] or (cws and ch == BSL)) else ch for ch in c)
+    if escq:
+        return c.replace(eq, escq)
+    return c
+
+
+def roundtrip_hyp(eq, esc, ml, cws, c):
+    return (esc != eq[0] and esc != "\n" and eq[0] != "\n" and (ml or not ("\n" in c or "\r" in c))
+            and not (cws and esc == BSL and eq[0] in SPECIAL_AFTER_BS))
+
+
+def make_qs(cfg):
+    import pyparsing as pp
+    q, eq, esc, escq, ml, unq, cws = cfg
+    return pp.QuotedString(q, esc_char=esc, esc_quote=escq, multiline=ml, end_quote_char=eq,
+                           convert_whitespace_escapes=cws, unquote_results=unq).leave_whitespace()
+
+
+def qs_run(qs, src):
+    import pyparsing as pp
+    try:
+        loc, toks = qs._parse(src, 0)
+        return (loc, toks[0])
+    except pp.ParseException:
+        return None
+
+
+def quoted_oracle(cfg, c):
+    """None | (key, what) | "outside": the round-trip property on the implementation, where it is expected to hold"""
+    q, eq, esc, escq, ml, unq, cws = cfg
+    src = q + py_escape(eq, esc, escq, cws, c) + eq
+    want = (len(src), c if unq else src)
+    got = qs_run(make_qs(cfg), src)
+    if got == want:
+        return None
+    tag = "q=%r,e=%r,esc=%r,escq=%r,ml=%d,unq=%d,cws=%d" % (q, eq, esc, escq, ml, unq, cws)
+    if esc is not None and escq is None and roundtrip_hyp(eq, esc, ml, cws, c):
+        return ("quoted:roundtrip:%s:%r" % (tag, c), "QuotedString(%s): %r -> %r parses to %r" % (tag, c, src, got))
+    if esc is not None and escq is not None and unq and escq in c and roundtrip_hyp(eq, esc, ml, cws, c):
+        return ("quoted:escquote-after-unescape", "F-18a QuotedString(%s): %r -> %r parses to %r" % (tag, c, src, got))
+    if esc is not None and escq is not None and escq not in c and roundtrip_hyp(eq, esc, ml, cws, c) \
+            and not escq.startswith(esc) and eq[0] not in escq[1:] and esc not in escq:
+        return ("quoted:roundtrip-escq:%s:%r" % (tag, c), "QuotedString(%s): %r -> %r parses to %r" % (tag, c, src, got))
+    if esc is None and escq is None and cws and unq and BSL in c and eq[0] not in c and (ml or not ("\n" in c or "\r" in c)):
+        return ("quoted:ws-escape-no-esc-char", "F-18b QuotedString(%s): %r -> %r parses to %r" % (tag, c, src, got))
+    return "outside"
+
+
+def quoted_grid():
+    grid = []
+    for (q, eq) in [('"', '"'), ("<", ">"), ("<<", ">>"), (SQ3, SQ3), ("<", ">>"), ("t", "t")]:
+        for esc in [None, BSL, "^"]:
+            for escq in [None, eq * 2, "$$"]:
+                for ml in [False, True]:
+                    for cws in [True, False]:
+                        for unq in [True, False]:
+                            grid.append((q, eq, esc, escq, ml, unq, cws))
+    return grid
 
 
 def part_d(ctx, info):
-    pass
+    n = 4 if ctx.thorough else 3
+    grid = quoted_grid()
+    for cfg in grid:                                  # the round-trip oracle on the implementation, whole grid
+        q, eq, esc, escq, ml, unq, cws = cfg
+        alpha = "".join(sorted(set(q + eq + (esc or "") + (escq or "") + "a \nt" + BSL)))
+        for c in all_strings(alpha, n):
+            bad = quoted_oracle(cfg, c)
+            if bad == "outside":
+                ctx.stat("quoted_outside_scope")
+            elif bad:
+                viol(ctx, bad[0], bad[1], {"kind": "quoted", "cfg": list(cfg), "content": c})
+            ctx.case(("qs", cfg, c), nontrivial=False, agreed=True)
+        ctx.stat("quoted_configs")
+    # documented numeric escapes (CHANGES 3.1.0: "handles translation of escaped integer, hex, octal, and Unicode sequences")
+    qs = make_qs(('"', '"', BSL, None, False, True, True))
+    for src, want in [('"' + BSL + 'x41"', "A"), ('"' + BSL + '101"', "A"), ('"' + BSL + 'u0041"', "A")]:
+        got = qs_run(qs, src)
+        if got != (len(src), want):
+            viol(ctx, "quoted:numeric-escape", "F-18g QuotedString numeric escape %r parses to %r, documented %r" % (src, got, want),
+                 {"kind": "quoted-numeric", "src": src, "want": want})
+    # model vs implementation on a deterministic sub-grid
+    step = 2 if ctx.thorough else 5
+    sub = [cfg for k, cfg in enumerate(grid) if k % step == (ctx.seed % step)]
+    exprs, meta = [], []
+    m = 3
+    for cfg in sub:
+        q, eq, esc, escq, ml, unq, cws = cfg
+        qs = make_qs(cfg)
+        alpha = "".join(sorted(set(q + eq + (esc or "") + (escq or "") + "a\nt3" + BSL)))
+        structural = len(eq) <= 2
+        exprs.append("re_eqb (qs_pattern %s) %s" % (cfg_coq(*cfg), regex_ast.to_coq(qs.pattern, qs.re_flags)) if structural else "true")
+        exprs.append("let cfg := %s in map (fun c => (qs_parse cfg (quoted_source cfg c) 0, qs_parse cfg c 0)) (strings_upto %s %d)"
+                     % (cfg_coq(*cfg), vlib.coq_str(alpha), m))
+        meta.append((cfg, qs, alpha))
+    try:
+        res = vlib.coq_eval_terms("c18_quoted", QPRE, exprs, timeout=900)
+    except Exception as e:
+        ctx.broken("correspondence:model-eval quoted (%s)" % str(e)[:300])
+        return
+    nbad = 0
+    for k, (cfg, qs, alpha) in enumerate(meta):
+        q, eq, esc, escq, ml, unq, cws = cfg
+        if res[2 * k] is not True:
+            ctx.broken("correspondence:QuotedString pattern construction differs for %r: %r" % (cfg, qs.pattern))
+        for c, (m1, m2) in zip(all_strings(alpha, m), res[2 * k + 1]):
+            for src, mm in ((q + py_escape(eq, esc, escq, cws, c) + eq, m1), (c, m2)):
+                impl = qs_run(qs, src)
+                mod = None if mm == "None" else (mm[1][0], vlib.from_coq_str(mm[1][1]))
+                ok = mod == impl
+                ctx.case(("qsm", cfg, src), nontrivial=impl is not None, agreed=ok)
+                if not ok and nbad < 3:
+                    nbad += 1
+                    ctx.broken("correspondence:QuotedString model=%r impl=%r for %r on %r" % (mod, impl, cfg, src))
+    ctx.stat("quoted_model_configs", len(sub))
+
+
+# ------------------------------------------------------------------------------------------------ (e) helpers
+HPRE = ("From Coq Require Import List ZArith NArith Bool.\n"
+        "From PP Require Import Model.Str Model.Enum Model.Helpers Gen.GenHelpers.\nImport ListNotations.\n"
+        "Fixpoint span_ab (s : str) : str * str := match s with x :: t => if (N.eqb x 97 || N.eqb x 98)%bool then let (w, r) := span_ab t in (x :: w, r) else ([], s) | [] => ([], []) end.\n"
+        "Definition c_word (s : str) : option (str * str) := let (w, r) := span_ab (skip_ws s) in match w with [] => None | _ :: _ => Some (w, r) end.\n"
+        "Definition c_delim (s : str) : option str := match skip_ws s with x :: r => if N.eqb x 44 then Some r else None | [] => None end.\n"
+        "Fixpoint span_dig (s : str) : str * str := match s with x :: t => if (N.leb 48 x && N.leb x 57)%bool then let (w, r) := span_dig t in (x :: w, r) else ([], s) | [] => ([], []) end.\n"
+        "Definition c_count (s : str) : option (nat * str) := let (w, r) := span_dig (skip_ws s) in match w with [] => None | _ :: _ => Some (fold_left (fun a d => 10 * a + N.to_nat (d - 48)) w 0, r) end.\n")
+
+
+def ref_nested(s, o="(", c=")"):
+    """independent reading with an explicit stack: (tree, end) or None"""
+    i = 0
+    while i < len(s) and s[i] in WS:
+        i += 1
+    if i >= len(s) or s[i] != o:
+        return None
+    stack = [[]]
+    i += 1
+    while True:
+        while i < len(s) and s[i] in WS:
+            i += 1
+        if i >= len(s):
+            return None
+        if s[i] == o:
+            stack.append([])
+            i += 1
+        elif s[i] == c:
+            done = stack.pop()
+            i += 1
+            if not stack:
+                return done, i
+            stack[-1].append(done)
+        else:
+            j = i
+            while j < len(s) and s[j] not in WS + o + c:
+                j += 1
+            stack[-1].append(s[i:j])
+            i = j
+
+
+def coq_tree(t):
+    """parsed Coq ntree -> nested python lists"""
+    if t[0] == "NWord":
+        return vlib.from_coq_str(t[1])
+    return [coq_tree(x) for x in t[1]]
+
+
+RE_FIRST = re.compile(r"[ \t\n\r]*([ab]+)")
+RE_PAIR = re.compile(r"[ \t\n\r]*,[ \t\n\r]*([ab]+)")
+RE_DELIM = re.compile(r"[ \t\n\r]*,")
+
+
+def ref_delimited(s, mn, mx, trail):
+    """independent reading: first element, then as many ',' element pairs as allowed (greedy), optional trailing ','"""
+    m = RE_FIRST.match(s)
+    if not m:
+        return None
+    items, pos = [m.group(1)], m.end()
+    while mx is None or len(items) < mx:
+        m2 = RE_PAIR.match(s, pos)
+        if not m2:
+            break
+        items.append(m2.group(1))
+        pos = m2.end()
+    if len(items) < (mn or 1):
+        return None
+    if trail:
+        m3 = RE_DELIM.match(s, pos)
+        if m3:
+            pos = m3.end()
+    return items, pos
+
+
+def ref_counted(s):
+    m = re.match(r"[ \t\n\r]*(\d+)", s)
+    if not m:
+        return None
+    k, pos, items = int(m.group(1)), m.end(), []
+    if k == 0:                       # Empty() skips the white space that follows
+        while pos < len(s) and s[pos] in WS:
+            pos += 1
+    for _ in range(k):
+        m2 = RE_FIRST.match(s, pos)
+        if not m2:
+            return None
+        items.append(m2.group(1))
+        pos = m2.end()
+    return items, pos
+
+
+def run_at0(expr, s):
+    import pyparsing as pp
+    try:
+        loc, toks = expr._parse(s, 0)
+        return (toks.as_list(), loc)
+    except pp.ParseException:
+        return None
+    except RecursionError:
+        return "rec"
+
+
+def dl_params():
+    out = []
+    for mn in (None, 1, 2, 3):
+        for mx in (None, 1, 2, 3):
+            if mx is not None and mn is not None and mx < mn:
+                continue
+            for trail in (False, True):
+                out.append((mn, mx, trail))
+    return out
 
 
 def part_e(ctx, info):
-    pass
+    import pyparsing as pp
+    n = 7 if ctx.thorough else 6
+    # nested_expr
+    ne = pp.nested_expr("(", ")", ignore_expr=None)
+    strs = list(all_strings("()a ", n)) + ["(a(b c)()d)", " ( a\n(b\tc) ) x", "(ab cd(ef))", "((((a))))", "(a)(b)", "(a b", "a (b)", "[a]",
+                                            "(a[b]c)", "( ( ) ( ( ) ) )"]
+    impl = []
+    for s in strs:
+        got = run_at0(ne, s)
+        if got not in (None, "rec"):
+            got = (got[0][0], got[1])
+        want = ref_nested(s)
+        if got != want:
+            viol(ctx, "nested:%r" % s, "nested_expr on %r gives %r, the bracket reading gives %r" % (s, got, want), {"kind": "nested", "s": s})
+        impl.append(got)
+    exprs = ["map (fun s => match parse_nested 40 40%N 41%N s with Some (t, r) => Some (t, length r) | None => None end) [%s]"
+             % "; ".join(vlib.coq_str(x) for x in strs)]
+    # DelimitedList
+    dl_cases = dl_params()
+    dl_strs = list(all_strings("a, ", 6)) + ["a,b,ab,ba", "a , b,a ,", "a,b,a,b,a", ",a", "a,,b", "ab ,ba, a,b , "]
+    dl_impl = {}
+    for (mn, mx, trail) in dl_cases:
+        e = pp.DelimitedList(pp.Word("ab"), ",", min=mn, max=mx, allow_trailing_delim=trail)
+        for s in dl_strs:
+            got = run_at0(e, s)
+            want = ref_delimited(s, mn, mx, trail)
+            if got != want:
+                viol(ctx, "delimited:min=%r,max=%r,trail=%r:%r" % (mn, mx, trail, s),
+                     "DelimitedList(min=%r,max=%r,trailing=%r) on %r gives %r, expected %r" % (mn, mx, trail, s, got, want),
+                     {"kind": "delimited", "min": mn, "max": mx, "trail": trail, "s": s})
+            dl_impl[(mn, mx, trail, s)] = got
+        exprs.append("map (fun s => match delimited_list str c_word c_delim %d %s %s s with Some (l, r) => Some (l, length r) | None => None end) [%s]"
+                     % (mn or 1, "None" if mx is None else "(Some %d)" % mx, str(trail).lower(), "; ".join(vlib.coq_str(x) for x in dl_strs)))
+    # counted_array
+    ca = pp.counted_array(pp.Word("ab"))
+    ca_strs = []
+    for k in range(0, 5):
+        for items in range(0, 5):
+            ca_strs.append(("%d " % k) + " ".join(["a", "ab", "b", "ba", "a"][:items]))
+    ca_strs += ["2 a b", "a b", "", "1", "0", "10 a a a a a a a a a a a", "2a b"]
+    ca_impl = []
+    for s in ca_strs:
+        got = run_at0(ca, s)
+        want = ref_counted(s)
+        if got != want:
+            viol(ctx, "counted:%r" % s, "counted_array on %r gives %r, expected %r" % (s, got, want), {"kind": "counted", "s": s})
+        ca_impl.append(got)
+    exprs.append("map (fun s => match fst (counted_array str c_count c_word skip_ws None s) with Some (l, r) => Some (l, length r) | None => None end) [%s]"
+                 % "; ".join(vlib.coq_str(x) for x in ca_strs))
+    try:
+        res = vlib.coq_eval_terms("c18_helpers", HPRE, exprs, timeout=900)
+    except Exception as e:
+        ctx.broken("correspondence:model-eval helpers (%s)" % str(e)[:300])
+        return
+    nb = 0
+    for s, got, m in zip(strs, impl, res[0]):
+        mod = None if m == "None" else (coq_tree(m[1][0]), len(s) - m[1][1])
+        ok = mod == got
+        ctx.case(("nested", s), nontrivial=got is not None, agreed=ok)
+        if not ok and nb < 3:
+            nb += 1
+            ctx.broken("correspondence:nested_expr model=%r impl=%r on %r" % (mod, got, s))
+    for k, (mn, mx, trail) in enumerate(dl_cases):
+        for s, m in zip(dl_strs, res[1 + k]):
+            got = dl_impl[(mn, mx, trail, s)]
+            mod = None if m == "None" else ([vlib.from_coq_str(w) for w in m[1][0]], len(s) - m[1][1])
+            ok = mod == got
+            ctx.case(("dl", mn, mx, trail, s), nontrivial=got is not None, agreed=ok)
+            if not ok and nb < 6:
+                nb += 1
+                ctx.broken("correspondence:DelimitedList(min=%r,max=%r,trail=%r) model=%r impl=%r on %r" % (mn, mx, trail, mod, got, s))
+    for s, got, m in zip(ca_strs, ca_impl, res[-1]):
+        mod = None if m == "None" else ([vlib.from_coq_str(w) for w in m[1][0]], len(s) - m[1][1])
+        ok = mod == got
+        ctx.case(("ca", s), nontrivial=got is not None, agreed=ok)
+        if not ok and nb < 9:
+            nb += 1
+            ctx.broken("correspondence:counted_array model=%r impl=%r on %r" % (mod, got, s))
+    ctx.stat("helper_strings", len(strs) + len(dl_strs) * len(dl_cases) + len(ca_strs))
 
 
 def search(ctx, reasons):
